@@ -329,6 +329,77 @@ class History:
         return sc
 
 
+    # ---- several faults in one history, including faults inside the handshake of a reconnect
+    FAULT_KINDS = ("close", "silence", "garbage", "nack", "truncated")
+
+    @staticmethod
+    def _inject(sc, request, replies, pos, kind):
+        """deliver what precedes position pos of this exchange, then the fault; ends on a NEW connection"""
+        sc.expect_write(request)
+        if pos > 0:
+            sc.feed(ACK)
+            for r in replies[:pos - 1]:
+                sc.feed(r); sc.expect_write(ACK)
+        if kind == "close":
+            sc.new_conn(end_prev="C")
+        elif kind == "silence":
+            sc.new_conn(end_prev="S")
+        elif kind == "garbage":
+            sc.feed(bytes([0x77, 0x01, 0x02, 0xaa, 0xbb])); sc.new_conn(end_prev="S")
+        elif kind == "nack":
+            sc.feed(bytes([0x84, 0x9c, 0x00])); sc.new_conn(end_prev="S")
+        elif kind == "truncated":
+            sc.feed(bytes([0x04, 0x0f, 0x20, 0x27])); sc.new_conn(end_prev="C")
+        elif kind.startswith("late:"):
+            # the packet at this position arrives d ms after the previous one (d around the timeout), nothing after it
+            pkt = ACK if pos == 0 else replies[pos - 1]
+            sc.feed(pkt, delay=int(kind[5:])); sc.new_conn(end_prev="S")
+        else:
+            raise ValueError(kind)
+
+    def _handshake(self, sc, hsq):
+        S, c = self.S, self.cfg
+        reg = (S.registration(c["pw"], c["cur"]), [S.completion()])
+        si = (S.sysinfo_req(), [S.sysinfo(c["serial"], c["tid"])])
+        while True:
+            f = hsq.pop(0) if hsq else None
+            if f is None:
+                sc.handshake()
+                return
+            stage, pos, kind = f
+            if stage == 0:
+                self._inject(sc, reg[0], reg[1], pos, kind)
+            else:
+                sc.exchange(*reg)
+                self._inject(sc, si[0], si[1], pos, kind)
+
+    def build_multi(self, faults, hs_faults=()):
+        """faults: list of (exchange index, position, kind), applied in order (several may hit the same exchange:
+        each retry of it consumes the next one); hs_faults: list of None | (stage 0/1, position 0/1, kind), one
+        entry consumed by each reconnect handshake attempt"""
+        sc = Scenario(self.S, self.cfg).start()
+        sc.ops = list(self.ops)
+        sc.exp_results = list(self.exp_results)
+        pending = {}
+        for j, pos, kind in faults:
+            pending.setdefault(j, []).append((pos, kind))
+        hsq = list(hs_faults)
+        j = 0
+        while j < len(self.exchanges):
+            e = self.exchanges[j]
+            if pending.get(j):
+                pos, kind = pending[j].pop(0)
+                pos = min(pos, len(e.replies))
+                if kind == "nack":
+                    pos = 0
+                self._inject(sc, e.request, e.replies, pos, kind)
+                self._handshake(sc, hsq)
+                continue
+            sc.exchange(e.request, e.replies)
+            j += 1
+        return sc
+
+
 def canon_uid(hex_uid):
     u = hex_uid.upper()
     if len(u) > 14:
